@@ -111,7 +111,7 @@ pub fn run(ctx: &Ctx) -> Report {
     let c = Counters { states_two_in_range: AtomicU64::new(0), states_with_ticks: AtomicU64::new(0), states_no_ticks: AtomicU64::new(0) };
     for b in &ws {
         let m = model(b, &c);
-        let out = poolexplore::run_world(ctx, &mut r, b, &m, ctx.depth(3, 6), share);
+        let out = poolexplore::run_world(ctx, &mut r, b, &m, ctx.depth(4, 6), share);
         poolexplore::fold(&mut r, &b.name, &out, &m.alphabet[..3]);
         if !r.violations.is_empty() {
             break;
